@@ -365,7 +365,26 @@ def run(chk, tier):
                 chain = [a[3] for a in anc if H.is_node(a) and H.kind(a) == "mcall"]
                 filt = [c for c in chain if c in ("filter", "filter_map", "skip_while", "take_while", "skip", "flat_map")]
                 chk.expect(not filt, "value-separator", h["path"].split("::")[-1], f"split#{n_split}", "no filtering adaptor on the parts", filt, loc=f"{h['loc']['f']}:{x[1]}")
+                # the predicate is "this byte IS the backslash"
+                pred = re.sub(r"^\|[^|]*\|\s*", "", H.show(x[5][0], 6))
+                chk.expect(re.fullmatch(r"\(Deref\((\w+)\) Eq 92\)|\((\w+) Eq &?92\)", pred) is not None or pred in ("92", "'\\\\'"), "value-separator", h["path"].split("::")[-1],
+                           f"split#{n_split}/predicate", "|b| *b == b'\\\\'", pred, loc=f"{h['loc']['f']}:{x[1]}")
     chk.floor("value-separator", "backslash splits in value readers", n_split, 7)
+    # a value reader is entered only for a non-empty value (length 0 -> PrimitiveValue::Empty, any other length is read); the date / time
+    # readers reject text that fails validation (`!= Ok`), they do not reject what passes it
+    chk.rule("value-reader-conditions", "read_value / read_value_preserved: `if header.length() == Length(0) { return Ok(Empty) }`; read_value_da/tm/dt: `if validate_x(buf) != Ok { error }`")
+    for hh in fx.crate("dicom_parser")["hir"]:
+        if re.search(r"StatefulDecoder<.*StatefulDecode>::read_value(_preserved|_bytes)?$", hh["path"]):
+            ifs_ = [x for x in H.walk(hh["body"]) if H.kind(x) == "if"]
+            first = H.show(ifs_[0][2], 6) if ifs_ else None
+            ok = first in ("(header.length() Eq dicom_core::header::Length(0))", "header.length().is_empty()", "header.is_empty()") and "PrimitiveValue::Empty" in H.show(ifs_[0][3], 5)
+            chk.expect(ok, "value-reader-conditions", hh["path"].split("::")[-1], "empty-iff-length-0", "if header.length() == Length(0) { return Ok(Empty) }", first, loc=C.fn_loc(hh))
+    for nm in ("read_value_da", "read_value_tm", "read_value_dt"):
+        hv = fx.method("dicom_parser", f"{SD}::StatefulDecoder", nm)
+        vifs = [x for x in H.walk(hv["body"]) if H.kind(x) == "if" and "validate_" in H.show(x[2], 5)]
+        ok = len(vifs) >= 1 and all(re.fullmatch(r"\(dicom_encoding::text::validate_\w+\(\w+\) Ne dicom_encoding::text::TextValidationOutcome::Ok\)", H.show(x[2], 6)) and
+                                   any(H.kind(y) == "ret" for y in H.walk(x[3])) for x in vifs)
+        chk.expect(ok, "value-reader-conditions", nm, "invalid-text-is-an-error", "if validate_x(buf) != Ok { return Err }", [H.show(x[2], 6) for x in vifs], loc=C.fn_loc(hv))
     from . import shared
     shared.value_reader_codec_calls(chk, fx, "value-reader-codec-calls")
     # every codec writes and reads in its own byte order only (shared with C03/C02)
